@@ -87,6 +87,7 @@ pub struct Hist {
     pub is_set: bool,
     /// skip the state-level query sweeps in `step` (the caller runs `state_checks` itself)
     pub light: bool,
+    pub resyncs: u32,
 }
 
 fn owners_of_oracle_panic(msg: &str) -> &'static [&'static str] {
@@ -111,7 +112,7 @@ impl Hist {
     pub fn new(mut w: Box<dyn WorldApi>, prop: &str, is_set: bool, g: Gen, replay: serde_json::Value) -> Hist {
         w.reset(2, 2);
         let (slot, scratch) = if is_set { (Slot::Set(0), Slot::Set(1)) } else { (Slot::Map(0), Slot::Map(1)) };
-        Hist { w, slot, scratch, m: Model::new(), g, f: Flags::for_prop(prop), prop: prop.to_string(), canonical: true, recent: VecDeque::new(), step_no: 0, replay, sweep_every: 1, hw_reach: 1, is_set, light: false }
+        Hist { w, slot, scratch, m: Model::new(), g, f: Flags::for_prop(prop), prop: prop.to_string(), canonical: true, recent: VecDeque::new(), step_no: 0, replay, sweep_every: 1, hw_reach: 1, is_set, light: false, resyncs: 0 }
     }
 
     fn replay_info(&self) -> serde_json::Value {
@@ -227,13 +228,17 @@ impl Hist {
             let owned: Vec<&(String, String)> = bad.iter().filter(|(s, _)| self.sig_owned(s) || (ret_owner && !s.starts_with("TrieView"))).collect();
             if let Some((s, m)) = owned.first() {
                 self.viol(ev, s, m.to_string());
-            } else {
-                if std::env::var("PTV_DEBUG").is_ok() {
-                    eprintln!("INCONCLUSIVE step {} {:?}", self.step_no, bad.first());
-                }
-                ev.inconclusive("return value / call-level mismatch owned by another property");
+                return Flow::Stop;
             }
-            return Flow::Stop;
+            if std::env::var("PTV_DEBUG").is_ok() {
+                eprintln!("FOREIGN step {} {:?}", self.step_no, bad.first());
+            }
+            // a finding owned by another property: take the library's own account of its
+            // contents as the new reference and keep checking this property's observers against it
+            ev.count("foreign/call_level_mismatch", 1);
+            if let Flow::Stop = self.resync(ev) {
+                return Flow::Stop;
+            }
         }
         // ---- state agreement (precondition of everything else)
         if let Flow::Stop = self.check_agree(ev, op, wrote, injected) {
@@ -346,6 +351,48 @@ impl Hist {
         let r = self.query_checks(ev, &op, &shape);
         self.sweep_every = keep;
         r
+    }
+
+    /// The model and the library disagree for a reason this property does not own. Re-base the
+    /// model on the contents the library itself reports through an observer that is independent
+    /// of the property under check (full iteration; for the iteration property: exact lookups of
+    /// the whole universe), so that this property's observers are judged against "the stored
+    /// entries" as the library sees them. Never happens on a tree where C01 holds.
+    fn resync(&mut self, ev: &mut Ev) -> Flow {
+        self.resyncs += 1;
+        if self.resyncs > 12 {
+            ev.inconclusive("state keeps diverging from the model (owned by another property)");
+            return Flow::Stop;
+        }
+        let slot = self.slot;
+        let by_lookup = self.f.iter;
+        let uni = self.g.uni.clone();
+        let items = {
+            let w = &mut self.w;
+            guarded(|| {
+                if by_lookup {
+                    uni.iter().filter_map(|q| w.q1(slot, Q1::GetKeyValue, *q)).collect::<Vec<Item>>()
+                } else {
+                    w.trav(slot, Trav::Iter, None).items
+                }
+            })
+        };
+        match items {
+            Ok(items) => {
+                let mut m = Model::new();
+                for (p, v) in items {
+                    m.insert(p, v);
+                }
+                self.m = m;
+                self.canonical = false;
+                ev.count("foreign/resyncs", 1);
+                Flow::Continue
+            }
+            Err(_) => {
+                ev.inconclusive("cannot re-base the model after a foreign finding");
+                Flow::Stop
+            }
+        }
     }
 
     fn sig_owned(&self, sig: &str) -> bool {
@@ -723,10 +770,11 @@ impl Hist {
                 if own {
                     let sig = if injected { "state-after-injected-panic".to_string() } else { format!("state/{}", op_name(op)) };
                     self.viol(ev, &sig, format!("after {:?}: get_key_value({:?}) = {:?}, model says {:?}", op, q, got, exp));
+                    Flow::Stop
                 } else {
-                    ev.inconclusive("state diverged from the model (owned by C01)");
+                    ev.count("foreign/state_diverged", 1);
+                    self.resync(ev)
                 }
-                Flow::Stop
             }
             Err(p) => self.on_panic(ev, &p, "get_key_value", self.f.exact),
         }
